@@ -67,7 +67,8 @@ KNOWN_KEYS = set()
 # seeded part carry the witness "random:<class>"
 INPUT_CLASS_KEYS = {"sbml:id-digits-escape", "sbml:bounds-above-default", "sbml:group-gene-member", "sbml:gene-empty-name",
                     "sbml:charge-none", "sbml:empty-reaction-invalid", "sbml:no-objective-invalid"}
-FIXED_MODELS = {"digits": 10, "genegroup": 6, "noname": 6, "nocharge": 6, "emptyreaction": 4, "noobjective": 4, "above": 4}
+FIXED_MODELS = {"digits": 10, "genegroup": 6, "noname": 6, "nocharge": 6, "emptyreaction": 4, "noobjective": 4, "above": 4,
+                "boundsgrid": 3}
 FIXED_DIGIT_LEN = 4      # strings of the digit class are enumerated (and listed as witnesses) up to this length
 SEEDED_CAP = 2000        # distinct witnesses kept per key from the seeded part (the fixed part is never capped)
 
@@ -937,6 +938,7 @@ def _run_all(units):
 
 def run(tier: str, seed: int) -> dict:
     import random
+    import cobra.io.sbml  # noqa: imported before forking, otherwise every unit's process pays the import again
     _quiet()
     t0 = time.time()
     thorough = tier == "thorough"
